@@ -263,6 +263,10 @@ func New(cfg Cfg, salt string) (w *World, err error) {
 	ab.Config.Modules.RecoverLoginAfterRecovery = cfg.RecoverLogin
 	ab.Config.Modules.TwoFactorEmailAuthRequired = cfg.TwoFAEmail
 	ab.Config.Modules.TOTP2FAIssuer = "verif"
+	if cfg.JSON {
+		// API clients post the mailed token in a JSON body (documented use of MailRouteMethod)
+		ab.Config.Modules.MailRouteMethod = "POST"
+	}
 	ab.Config.Modules.ResponseOnUnauthed = authboss.MWRespondOnFailure(cfg.OnUnauthed)
 	if cfg.LockAfter > 0 {
 		ab.Config.Modules.LockAfter = cfg.LockAfter
